@@ -93,6 +93,32 @@ LOAD = {
     'unicode_text': lambda n: '- ' + (chr(0x4e2d) + chr(0x1F600) + chr(0xe9) + ' ') * n,
     'indentless_seq': lambda n: 'k:\n' + '- a\n' * n,
     'empty_values': lambda n: ''.join('k%d:\n' % i for i in range(n)),
+    # one long run inside a single line / token (a scan that looks ahead per character is quadratic here)
+    'literal_deep_indent': lambda n: 'k: |\n' + ' ' * (n * 5) + 'text\n',
+    'literal_leading_space_line': lambda n: 'k: |\n' + ' ' * (n * 5) + '\n' + ' ' * (n * 5) + 'text\n',
+    'folded_deep_indent': lambda n: 'k: >\n' + ' ' * (n * 5) + 'text\n' + ' ' * (n * 5) + 'more\n',
+    'literal_many_space_lines': lambda n: '|\n' + '   \n' * n + '    x\n',
+    'literal_explicit_indent_spaces': lambda n: '|2\n' + '  ' + ' ' * (n * 5) + 'x\n',
+    'plain_inner_spaces': lambda n: 'a' + ' ' * (n * 10) + 'b',
+    'single_inner_spaces': lambda n: "'a" + ' ' * (n * 10) + "b'",
+    'double_inner_spaces': lambda n: '"a' + ' ' * (n * 10) + 'b"',
+    'double_space_lines': lambda n: '"a' + (' ' * 40 + '\n') * n + 'b"',
+    'single_blank_lines': lambda n: "'a" + '\n' * (n * 5) + "b'",
+    'flow_space_runs': lambda n: '[a,' + ' ' * (n * 10) + 'b]',
+    'tab_runs': lambda n: '"a' + '\t' * (n * 10) + 'b"',
+    'comment_after_spaces': lambda n: 'a: b' + ' ' * (n * 10) + '# c\n',
+    'deep_indent_line': lambda n: 'a:\n' + ' ' * (n * 5) + 'b: c\n',
+    'long_anchor': lambda n: '&' + 'a' * (n * 10) + ' x',
+    'long_alias': lambda n: '- &' + 'a' * (n * 10) + ' x\n- *' + 'a' * (n * 10) + '\n',
+    'long_tag': lambda n: '!' + 't' * (n * 10) + ' x',
+    'long_verbatim_tag': lambda n: '!<tag:' + 't' * (n * 10) + '> x',
+    'long_tag_pct': lambda n: '!' + '%74' * (n * 3) + ' x',
+    'long_tag_directive': lambda n: '%TAG !e! tag:' + 'x' * (n * 10) + '\n--- !e!a b\n',
+    'long_unknown_directive': lambda n: '%FOO ' + 'x' * (n * 10) + '\n--- a\n',
+    'long_sexagesimal': lambda n: '1' + ':30' * (n * 2),
+    'long_binary': lambda n: '!!binary ' + 'aGVsbG8g' * n,
+    'document_end_comments': lambda n: '--- a\n...\n' + '# c\n' * n + '--- b\n',
+    'bom_runs': lambda n: 'a: b\n' + (chr(0xFEFF) + '\n') * 0 + '# ' + chr(0xFEFF) * (n * 5) + '\n',
 }
 
 DUMP = {
@@ -123,6 +149,18 @@ DUMP = {
     'width_small': (lambda n: 'word ' * n + 'z', {'width': 10}),
     'indent9': (lambda n: [[i, [i]] for i in range(n)], {'indent': 9}),
     'many_docs': (lambda n: list(range(n)), {'_all': True}),
+    'str_space_run_plain': (lambda n: 'a' + ' ' * (n * 10) + 'b', {}),
+    'str_space_run_double': (lambda n: 'a' + ' ' * (n * 10) + 'b', {'default_style': '"', 'width': 30}),
+    'str_space_run_folded': (lambda n: 'a' + ' ' * (n * 10) + 'b\n', {'default_style': '>', 'width': 30}),
+    'str_leading_spaces_literal': (lambda n: ' ' * (n * 10) + 'b\n', {'default_style': '|'}),
+    'str_breaks_run': (lambda n: 'a' + '\n' * (n * 10) + 'b', {}),
+    'str_breaks_run_folded': (lambda n: 'a' + '\n' * (n * 10) + 'b\n', {'default_style': '>'}),
+    'str_quotes_run': (lambda n: "'" * (n * 10), {}),
+    'str_astral': (lambda n: chr(0x1F600) * (n * 5), {}),
+    'long_tag': (lambda n: __import__('yaml').ScalarNode('!' + 't' * (n * 10), 'x'), {'_serialize': True}),
+    'first_child_big': (lambda n: {'items': list(range(n)), 'z': 1}, {}),
+    'first_item_big': (lambda n: [list(range(n)), 1], {}),
+    'first_key_big_flow': (lambda n: [[[i] for i in range(n)], 1], {'default_flow_style': True}),
 }
 
 
@@ -141,6 +179,8 @@ def measure_load(text):
     try:
         for _ in yaml.load_all(text, Loader=yaml.SafeLoader):
             pass
+    except yaml.constructor.ConstructorError:
+        pass        # families with a tag the safe loader refuses: the work of reading and composing them is measured all the same
     finally:
         sys.setprofile(None)
     return c.n
@@ -149,10 +189,13 @@ def measure_load(text):
 def measure_dump(value, opts):
     o = dict(opts)
     allm = o.pop('_all', False)
+    ser = o.pop('_serialize', False)
     c = Counter()
     sys.setprofile(c.prof)
     try:
-        if allm:
+        if ser:
+            yaml.serialize(value, Dumper=yaml.SafeDumper, **o)
+        elif allm:
             yaml.dump_all(value, Dumper=yaml.SafeDumper, **o)
         else:
             yaml.dump(value, Dumper=yaml.SafeDumper, **o)
@@ -186,11 +229,16 @@ def hwm(kind, arg, opts=None):
                 return r
             R.update = up
         if kind == 'load':
-            for _ in yaml.load_all(arg, Loader=yaml.SafeLoader):
+            try:
+                for _ in yaml.load_all(arg, Loader=yaml.SafeLoader):
+                    pass
+            except yaml.constructor.ConstructorError:
                 pass
         else:
             o = dict(opts)
-            if o.pop('_all', False):
+            if o.pop('_serialize', False):
+                yaml.serialize(arg, Dumper=yaml.SafeDumper, **o)
+            elif o.pop('_all', False):
                 yaml.dump_all(arg, Dumper=yaml.SafeDumper, **o)
             else:
                 yaml.dump(arg, Dumper=yaml.SafeDumper, **o)
